@@ -37,9 +37,18 @@ GUARD = 1e-9
 # ----------------------------------------------------------------------------
 # instance generation
 # ----------------------------------------------------------------------------
-def gen_instance(rng, tier, max_admitted=5, force=None):
-  """A JSON-serialisable search instance. All randomness from `rng` (random.Random)."""
+THEMES = ['default'] * 6 + ['highcorr_budget', 'share_lo', 'share_lo', 'doubles', 'tfixed_budget']
+
+
+def gen_instance(rng, tier, max_admitted=5, force=None, theme=None):
+  """A JSON-serialisable search instance. All randomness from `rng` (random.Random).
+  Themes steer the generator towards regions where specific clauses bite:
+    highcorr_budget: noise-free geos (correlation above rho_max) with a budget range whose lower bound is active
+    share_lo:        a treatment-share range whose lower bound cuts through the enumerated groups
+    doubles:         geos whose series are exact doubles of each other, dyadic tolerances: ratios land exactly on the bounds
+    tfixed_budget:   a geo fixed to treatment together with a budget range"""
   force = force or {}
+  theme = theme or rng.choice(THEMES)
   n_data = force.get('n_data') or rng.choice([1, 2, 3, 3, 4, 4, 4, 5, 5, 5, 6] if max_admitted >= 6
                                             else [1, 2, 3, 3, 4, 4, 4, 5, 5, 5])
   n_dates = rng.choice([8, 10, 12, 16, 20, 24])
@@ -53,14 +62,26 @@ def gen_instance(rng, tier, max_admitted=5, force=None):
     base.append(max(5, base[-1] + rng.randint(-15, 15)))
   scales = rng.sample(range(1, 30), n_data)
   values = {}
+  if theme == 'doubles':
+    scales = [2 ** k for k in range(n_data)]
+    rng.shuffle(scales)
   for g, sc in zip(geos, scales):
-    noise_amp = rng.choice([0, 1, 2, 5, 20, 60])
-    values[g] = [sc * b + rng.randint(-noise_amp, noise_amp) * sc + rng.randint(-3, 3) for b in base]
+    noise_amp = rng.choice([0, 1, 2, 5, 20, 60]) if theme not in ('highcorr_budget', 'doubles') else 0
+    if theme == 'doubles':
+      # exact doubles in the mean, not collinear: a zero-sum perturbation (n_dates is even)
+      amp = rng.randint(1, 9)
+      pert = [amp * rng.choice([1, 2, 3]) * (1 if d % 2 == 0 else -1) for d in range(n_dates)]
+      pert[1] = -pert[0]
+      for d in range(2, n_dates, 2):
+        pert[d + 1] = -pert[d]
+      values[g] = [sc * b + q for b, q in zip(base, pert)]
+    else:
+      values[g] = [sc * b + rng.randint(-noise_amp, noise_amp) * sc + rng.randint(-3, 3) for b in base]
     if len(set(values[g])) == 1:
       values[g][0] += 7
   rows = []
-  missing = rng.random() < 0.15
-  dup = rng.random() < 0.1
+  missing = rng.random() < 0.15 and theme != 'doubles'
+  dup = rng.random() < 0.1 and theme != 'doubles'
   for g in geos:
     for d in range(n_dates):
       if missing and rng.random() < 0.05 and n_dates > 10:
@@ -109,8 +130,36 @@ def gen_instance(rng, tier, max_admitted=5, force=None):
   if rng.random() < 0.3:
     params['n_geos_max'] = rng.randint(2, max(2, n_data))
   params['n_designs'] = rng.choice([1, 1, 2, 3, 5, 1000])
+  if theme == 'highcorr_budget':
+    params['budget_range'] = 'auto:' + rng.choice(['mid', 'tight', 'high', 'tight'])
+    params.pop('treatment_share_range', None)
+  elif theme == 'share_lo':
+    lo = rng.choice([0.15, 0.2, 0.3, 0.42])
+    params['treatment_share_range'] = [lo, rng.choice([x for x in (0.5, 0.62, 0.8, 0.95) if x > lo])]
+    params.pop('budget_range', None)
+    params['n_designs'] = rng.choice([1, 3, 1000])
+  elif theme == 'doubles':
+    params['volume_ratio_tolerance'] = rng.choice([1.0, 1.0, 3.0, 0.5])
+    if rng.random() < 0.5:
+      params['geo_ratio_tolerance'] = rng.choice([1.0, 0.5, 2.0])
+    params.pop('budget_range', None)
+  elif theme == 'tfixed_budget':
+    if elig is None:
+      elig = {g: [1, 1, 1] for g in geos}
+    elig[rng.choice(list(elig))] = [0, 1, 0]
+    params['budget_range'] = 'auto:' + rng.choice(['lowhi', 'tight', 'mid'])
+  if rng.random() < 0.12:
+    # integer-valued parameters spelled as floats are accepted values
+    for k in ('n_test', 'n_pretest_max', 'n_geos_max', 'n_designs'):
+      if isinstance(params.get(k), int):
+        params[k] = float(params[k])
+    for k in ('treatment_geos_range', 'control_geos_range'):
+      if params.get(k) is not None:
+        params[k] = [float(v) for v in params[k]]
+  if rng.random() < 0.04:
+    params['iroas'] = rng.choice([0.0, 0])
   inst = {'geos': geos, 'n_dates': n_dates, 'rows': rows, 'elig': elig, 'params': params,
-          'max_admitted': max_admitted}
+          'max_admitted': max_admitted, 'theme': theme}
   inst.update(force.get('extra', {}))
   return inst
 
@@ -183,9 +232,10 @@ def compute_tables(inst, par, shares_by_geo):
   order = sorted(table.keys(), key=lambda g: -means[g])
   t.distinct_means = len(set(means.values())) == len(means)
   t.order = order
-  n_window = min(len(dates), par.n_pretest_max)
+  npm = int(par.n_pretest_max)
+  n_window = min(len(dates), npm)
   t.n_window = n_window
-  arr = np.array([table[g][-par.n_pretest_max:] for g in order]) if order else np.zeros((0, n_window))
+  arr = np.array([table[g][-npm:] for g in order]) if order else np.zeros((0, n_window))
   t.arr = arr
   t.cls7 = [geo_class(inst, g) for g in order]
   t.share = [float(shares_by_geo[g]) for g in order]
@@ -204,9 +254,10 @@ def compute_tables(inst, par, shares_by_geo):
       cand.append(i)
   t.req_distinct = len(set(t.req[i] for i in cand)) == len(cand)
   if par.n_geos_max is not None and len(cand) > par.n_geos_max:
+    ngm = int(par.n_geos_max)
     must = [i for i in cand if t.cls7[i] in MUST]
     opt = sorted([i for i in cand if t.cls7[i] not in MUST], key=lambda i: -t.req[i])
-    keep = set(must) | set(opt[:max(0, par.n_geos_max - len(must))])
+    keep = set(must) | set(opt[:max(0, ngm - len(must))])
     cand = [i for i in cand if i in keep]
   t.idx = cand
   t.cls = [t.cls7[i] for i in cand]
@@ -256,8 +307,8 @@ def resolve_budget(inst, probe_par):
   if isinstance(b, str):
     from matched_markets.methodology import tbrmmdiagnostics
     _, table = pivot(inst)
-    imps = sorted(float(tbrmmdiagnostics.TBRMMDiagnostics(v[-probe_par.n_pretest_max:], probe_par)
-                        .estimate_required_impact(probe_par.rho_max)) / probe_par.iroas for v in table.values())
+    imps = sorted(float(tbrmmdiagnostics.TBRMMDiagnostics(v[-int(probe_par.n_pretest_max):], probe_par)
+                        .estimate_required_impact(probe_par.rho_max)) / (probe_par.iroas or 1.0) for v in table.values())
     imps = [x for x in imps if x > 0 and math.isfinite(x)] or [1.0]
     med, lo_, hi_ = imps[len(imps) // 2], imps[0], imps[-1]
     kind = b.split(':')[1]
@@ -418,10 +469,12 @@ def min_margin(resolved, t):
   p = resolved
   m = [math.inf]
 
-  def cmp(v, thr, exact_tie_ok=False):
+  def cmp(v, thr, v_exact=None, thr_exact=None):
+    """v, thr: the floats the implementation compares; v_exact, thr_exact: the rationals the model compares.
+    When both pairs coincide exactly the two comparisons agree whatever the margin (an exact tie is fine)."""
     if not (math.isfinite(v) and math.isfinite(thr)):
       return
-    if v == thr and exact_tie_ok:
+    if v_exact is not None and Fraction(v) == v_exact and Fraction(thr) == thr_exact:
       return
     m[0] = min(m[0], abs(v - thr) / max(abs(thr), abs(v), 1e-300))
 
@@ -438,7 +491,7 @@ def min_margin(resolved, t):
         cmp(s / tot, lo); cmp(s / tot, hi)
     for s in t.share:
       cmp(s, hi)
-  if p.get('budget_range') is not None:
+  if p.get('budget_range') is not None and p['iroas'] != 0:
     lo, hi = p['budget_range']
     for T, v in t.opt.items():
       cmp(v / p['iroas'], lo); cmp(v / p['iroas'], hi)
@@ -448,10 +501,15 @@ def min_margin(resolved, t):
       cmp(r, hi * p['iroas'])
   if p.get('volume_ratio_tolerance') is not None:
     tol = p['volume_ratio_tolerance']
+    ft = Fraction(tol)
+    npsh = np.array(sh)
     for (T, C) in t.pair:
-      sT, sC = sum(sh[i] for i in T), sum(sh[i] for i in C)
-      if sT:
-        cmp(sC / sT, 1 + tol); cmp(sC / sT, 1 / (1 + tol))
+      if not T or not C:
+        continue
+      sT, sC = float(npsh[list(T)].sum()), float(npsh[list(C)].sum())       # as the implementation sums
+      eT, eC = sum(Fraction(sh[i]) for i in T), sum(Fraction(sh[i]) for i in C)   # as the model sums
+      if sT and eT:
+        cmp(sC / sT, 1.0 + tol, eC / eT, 1 + ft); cmp(sC / sT, 1.0 / (1.0 + tol), eC / eT, 1 / (1 + ft))
   if p.get('geo_ratio_tolerance') is not None:
     tol = p['geo_ratio_tolerance']
     exact = Fraction(1.0 + tol) == 1 + Fraction(tol)
@@ -475,8 +533,8 @@ def process(job):
   try:
     from matched_markets.methodology import tbrmmdesignparameters
     probe = tbrmmdesignparameters.TBRMMDesignParameters(
-        n_test=inst['params']['n_test'], iroas=inst['params']['iroas'],
-        n_pretest_max=inst['params'].get('n_pretest_max') or 90)
+        n_test=int(inst['params']['n_test']), iroas=inst['params']['iroas'],
+        n_pretest_max=int(inst['params'].get('n_pretest_max') or 90))
     resolved = resolve_budget(inst, probe)
     resolved = {k: v for k, v in resolved.items() if v is not None}
     rec['resolved'] = resolved
@@ -678,7 +736,7 @@ def c09_precondition(r):
   t = r.get('tables')
   if t is None:
     return True
-  return t['n_window'] >= r['resolved']['n_test'] + 3
+  return t['n_window'] >= int(r['resolved']['n_test']) + 3
 
 
 def raw_shares(r):
@@ -727,7 +785,7 @@ def constraint_report(r, T, C, t, which):
     rec = t['pair'].get((tuple(T), tuple(C)))
     if rec is not None and math.isfinite(rec[0]):
       lo, hi = p['budget_range']
-      b = rec[0] / p['iroas']
+      b = rec[0] / p['iroas'] if p['iroas'] != 0 else (math.inf if rec[0] > 0 else (-math.inf if rec[0] < 0 else math.nan))
       if outside(b, lo, hi):
         bad_common.append(f'required budget {b} outside {[lo, hi]}')
   return bad_common, badA, badB
@@ -931,7 +989,7 @@ def judge_c03(out, res):
       for rr_ in range(1, len(T) + 1):
         for S in itertools.combinations(T, rr_):
           v = t['opt'].get(S)
-          if v is not None and math.isfinite(v) and not (lo <= v / p['iroas'] <= hi):
+          if v is not None and math.isfinite(v) and not (p['iroas'] != 0 and lo <= v / p['iroas'] <= hi):
             return True
       return False
 
@@ -974,7 +1032,10 @@ def judge_c04(out, res):
         y = sub[d['T']].sum(axis=0)
         x = sub[d['C']].sum(axis=0)
         prob = None
-        if d['diag_y'] is None or not np.allclose(d['diag_y'], y, rtol=1e-12, atol=1e-9):
+        if d['diag_y'] is None or len(d['diag_y']) != len(y) or (d['diag_x'] is not None and len(d['diag_x']) != len(x)):
+          prob = (f'series held by the diagnostics have {None if d["diag_y"] is None else len(d["diag_y"])} points, the analysis window '
+                  f'(most recent n_pretest_max dates) has {len(y)}')
+        elif not np.allclose(d['diag_y'], y, rtol=1e-12, atol=1e-9):
           prob = 'treatment series held by the diagnostics is not the sum of the reported treatment geos over the analysis window'
         elif d['diag_x'] is None or not np.allclose(d['diag_x'], x, rtol=1e-12, atol=1e-9):
           prob = 'control series held by the diagnostics is not the sum of the reported control geos over the analysis window'
@@ -1035,9 +1096,14 @@ def judge_c13(out, res):
                            f'exhaustive search found nothing but greedy returned {[(d["Tids"], d["Cids"]) for d in g["result"]]}')
       continue
     feas = set(feasible_designs(r, both_readings=False))
+    ranked = {(tuple(sorted(pl[0])), tuple(sorted(pl[1]))) for pl in e.get('pushlog', [])}
     best = tuple(e['result'][0]['score']) if e['result'] else None
     for d in g['result']:
       key = (tuple(d['T']), tuple(d['C']))
+      if key not in ranked:
+        f['symptom'] = 'greedy-design-not-ranked'
+        out.oracle_violation(f, case_of(r, 'greedy'), f'greedy design T={d["Tids"]} C={d["Cids"]} is not among the {len(ranked)} designs the exhaustive search ranked on the same input')
+        break
       if key not in feas:
         f['symptom'] = 'greedy-design-infeasible'
         out.oracle_violation(f, case_of(r, 'greedy'), f'greedy design T={d["Tids"]} C={d["Cids"]} is not in the feasible set of the exhaustive search')
@@ -1072,3 +1138,17 @@ def judge_c14(out, tier):
   res = get_results(tier)
   judge_c14_search(out, res)
   out.extra['search_instances_checked_for_order_and_cap'] = len(res['recs'])
+
+
+def extra_instances(themes, n, salt=''):
+  """more instances (optionally restricted to some generator themes), real runs + tables only (no model)"""
+  rng = core.rng_for('search-extra', salt)
+  jobs = []
+  for i in range(n):
+    th = rng.choice(themes) if themes else None
+    jobs.append((f'x{i}', gen_instance(rng, 'quick', max_admitted=5, theme=th)))
+  with mp.Pool(min(16, os.cpu_count() or 4)) as pool:
+    recs = pool.map(process, jobs, chunksize=4)
+  for r in recs:
+    r.pop('wire', None)
+  return recs
